@@ -15,13 +15,14 @@ Local Open Scope Q_scope.
 
 (** * NaN-propagating arithmetic *)
 Definition oq := option Q.
+(** every result is normalised with [Qred] (value-preserving: [Qred q == q]) so that histories stay cheap to evaluate *)
 Definition olift2 (f : Q -> Q -> Q) (a b : oq) : oq :=
-  match a, b with Some x, Some y => Some (f x y) | _, _ => None end.
+  match a, b with Some x, Some y => Some (Qred (f x y)) | _, _ => None end.
 Definition oadd := olift2 Qplus.
 Definition osub := olift2 Qminus.
 Definition omul := olift2 Qmult.
 (** [1.0 / scale]; a zero scale (numpy: inf) does not occur in states accepted by [sc_ok] and is not modelled *)
-Definition oinv (a : oq) : oq := match a with Some x => Some (/ x) | None => None end.
+Definition oinv (a : oq) : oq := match a with Some x => Some (Qred (/ x)) | None => None end.
 Definition is_none {A} (a : option A) : bool := match a with None => true | Some _ => false end.
 
 (** observed (non-missing) values of a column *)
@@ -36,8 +37,9 @@ Fixpoint allsome (c : list oq) : option (list Q) :=
   end.
 
 Definition qlen (v : list Q) : Q := inject_Z (Z.of_nat (length v)).
-Definition mean_q (v : list Q) : Q := sumQ v / qlen v.
-Definition var_q (v : list Q) : Q := let m := mean_q v in sumQ (map (fun x => (x - m) * (x - m)) v) / qlen v.
+Definition sumQr (l : list Q) : Q := fold_right (fun x acc => Qred (x + acc)) 0 l.
+Definition mean_q (v : list Q) : Q := Qred (sumQr v / qlen v).
+Definition var_q (v : list Q) : Q := let m := mean_q v in Qred (sumQr (map (fun x => Qred ((x - m) * (x - m))) v) / qlen v).
 
 (** numpy.nanmean / numpy.nanvar along the taxa axis: NaN when nothing was observed *)
 Definition nanmean (c : list oq) : oq := match somes c with [] => None | v => Some (mean_q v) end.
@@ -260,6 +262,10 @@ Definition concat_labels (ls : list (nat * option (list Z))) (fill : bool) : opt
 Fixpoint concat_cols (t : nat) (ms : list (list (list oq))) : list (list oq) :=
   match ms with [] => repeat [] t | m :: rest => map2 (@app oq) m (concat_cols t rest) end.
 
+(** the constructor's label checks: taxa / taxa_grp must have one entry per taxon *)
+Definition chk (r : rawst) : option rawst :=
+  if label_len_ok (r_n r) (r_taxa r) && label_len_ok (r_n r) (r_grp r) then Some r else None.
+
 (** ** raw-level effect of the copy-on-manipulation operations (select/delete/insert/adjoin) and of remove:
        the list operation applied to every raw column and to the labels.  [vals] says which values an operand contributes:
        the specification uses the operand's raw values, the model of the source what [values.unscale()] computes. *)
@@ -267,20 +273,20 @@ Definition raw_step (vals : operand -> list (list oq)) (r : rawst) (o : op) : op
   match o with
   | OSelect ix =>
       match map_cols (fun c => take_l c ix) (r_cols r), olabels (fun l => take_l l ix) (r_taxa r), olabels (fun l => take_l l ix) (r_grp r), new_n (fun l => take_l l ix) (r_n r) with
-      | Some c, Some t, Some g, Some n => Some (mkraw c n t g) | _, _, _, _ => None end
+      | Some c, Some t, Some g, Some n => chk (mkraw c n t g) | _, _, _, _ => None end
   | ODelete ob | ORemove ob =>
       match map_cols (fun c => delete_any c ob) (r_cols r), olabels (fun l => delete_any l ob) (r_taxa r), olabels (fun l => delete_any l ob) (r_grp r), new_n (fun l => delete_any l ob) (r_n r) with
-      | Some c, Some t, Some g, Some n => Some (mkraw c n t g) | _, _, _, _ => None end
+      | Some c, Some t, Some g, Some n => chk (mkraw c n t g) | _, _, _, _ => None end
   | OInsert ob v =>
       if operand_usable v then
         match map2_cols (fun c x => insert_any c ob x) (r_cols r) (vals v), copy_labels (r_taxa r) (r_grp r) v (fun a b => insert_any a ob b),
               new_n (fun l => insert_any l ob (repeat tt (o_k v))) (r_n r) with
-        | Some c, Some (t, g), Some n => Some (mkraw c n t g) | _, _, _ => None end
+        | Some c, Some (t, g), Some n => chk (mkraw c n t g) | _, _, _ => None end
       else None
   | OAdjoin v =>
       if operand_usable v then
         match map2_cols app_opt (r_cols r) (vals v), copy_labels (r_taxa r) (r_grp r) v app_opt with
-        | Some c, Some (t, g) => Some (mkraw c (r_n r + o_k v) t g) | _, _ => None end
+        | Some c, Some (t, g) => chk (mkraw c (r_n r + o_k v) t g) | _, _ => None end
       else None
   (* what the property demands of the in-place operations and of concat_taxa: the same list operations on raw values *)
   | OIncorp ob v =>
